@@ -97,6 +97,11 @@ impl<CS: CLCiphersuite> Signature<CL03<CS>> {
     pub fn verify(&self, pk: &CL03PublicKey, a_bases: &Bases, message: &CL03Message) -> bool {
         let sign = self.cl03Signature();
 
+        // v is an element of Z_N^*: only its reduced representative is a valid signature component
+        if sign.v <= 0 || sign.v >= pk.N {
+            return false;
+        }
+
         let lhs = Integer::from(sign.v.pow_mod_ref(&sign.e, &pk.N).unwrap());
 
         let rhs = (Integer::from(a_bases.0[0].pow_mod_ref(&message.value, &pk.N).unwrap())
@@ -131,6 +136,11 @@ impl<CS: CLCiphersuite> Signature<CL03<CS>> {
         }
 
         let sign = self.cl03Signature();
+
+        // v is an element of Z_N^*: only its reduced representative is a valid signature component
+        if sign.v <= 0 || sign.v >= pk.N {
+            return false;
+        }
 
         let lhs = Integer::from(sign.v.pow_mod_ref(&sign.e, &pk.N).unwrap());
 
